@@ -20,7 +20,9 @@ type extraFn struct {
 	// Call returns the results and the byte buffers it passed in (the
 	// caller's own buffers, which it is free to reuse afterwards).
 	// objs: the objects for parameters of the version's own type, in order.
-	Call func(obj unsafe.Pointer, a []string, objs []unsafe.Pointer) ([]any, [][]byte)
+	// pv: values of pool types (what earlier calls of the task returned), for
+	// "pool:" parameters in order; the rest of pv feeds a "vpool:" parameter.
+	Call func(obj unsafe.Pointer, a []string, objs []unsafe.Pointer, pv []any) ([]any, [][]byte)
 }
 
 // extraAny makes the argument for an interface{} parameter from its textual
@@ -67,6 +69,30 @@ func extraJSONPtr[T any](s string) *T {
 	return &v
 }
 
+// extraPoolTypes: reflect type strings ("gocvss31.Option", "*gocvss31.Parser")
+// of the values that are kept for later calls.
+var extraPoolTypes []string
+
+func isPoolType(k string) bool {
+	for _, t := range extraPoolTypes {
+		if t == k {
+			return true
+		}
+	}
+	return false
+}
+
+// poolSlice makes the argument of a variadic parameter of a pool type.
+func poolSlice[T any](pv []any) []T {
+	var s []T
+	for _, v := range pv {
+		if t, ok := v.(T); ok {
+			s = append(s, t)
+		}
+	}
+	return s
+}
+
 var extraAPI []extraFn
 
 func extraInt(s string) int64 { n, _ := strconv.ParseInt(s, 10, 64); return n }
@@ -84,7 +110,7 @@ func findExtra(ver int, name string) *extraFn {
 
 // canonValue prints a value without addresses (pointers are followed).
 func canonValue(v reflect.Value, depth int) string {
-	if depth > 4 {
+	if depth > 9 {
 		return "..."
 	}
 	if !v.IsValid() {
